@@ -148,6 +148,12 @@ def run_server(case, tls):
     kwa = dict(store=store, ha=(HOST, PORT), timeout=T)
     if tls:
         kwa.update(scheme="https", context=dbl.FakeTlsContext())
+    if case.get("wlog"):
+        # a wire log attached to the server (in memory): logging what is received or sent is activity like any other
+        from ioflo.aio.wiring import WireLog
+        wl = WireLog(buffify=True)
+        wl.reopen()
+        kwa["wlog"] = wl
     if case["kind"] == "valet":
         server = serving.Valet(app=make_app(conns), **kwa)
     else:
@@ -268,6 +274,8 @@ def run_case(case):
                 seen.add(sig)
                 fails.append((sig, what))
     classes = {"kind:" + case["kind"], "timeout:%s" % case["timeout"], "conns:%d" % len(case["conns"])}
+    if case.get("wlog"):
+        classes.add("wire-log-attached")
     classes |= plain["classes"] | tls["classes"]
     if plain["error"] or tls["error"]:
         pe, te = plain["error"], tls["error"]
@@ -307,15 +315,16 @@ def conn_spec():
 
 
 def cases():
-    def build(kind, timeout, conns, steps):
+    def build(kind, timeout, conns, steps, wlog):
         n = len(conns)
-        return {"kind": kind, "timeout": timeout, "conns": conns,
+        return {"kind": kind, "timeout": timeout, "conns": conns, "wlog": wlog,
                 "steps": [[dt, [[ev, cid % n] for ev, cid in evs]] for dt, evs in steps]}
     # an event on a connection that is not open yet opens it first
     event = st.tuples(st.sampled_from(["data"] * 9 + ["eof"]), st.integers(0, 2))
     step = st.tuples(DT, st.lists(event, min_size=0, max_size=3))
     return st.builds(build, st.sampled_from(["valet", "valet", "porter"]), st.sampled_from(TIMEOUTS),
-                     st.lists(conn_spec(), min_size=1, max_size=3), st.lists(step, min_size=4, max_size=30))
+                     st.lists(conn_spec(), min_size=1, max_size=3), st.lists(step, min_size=4, max_size=30),
+                     st.sampled_from([False, False, True]))
 
 
 def plan(tier):
